@@ -85,6 +85,9 @@ def build(settings, placement, d, tag, cfg_style=0, long_names=False):
     cfg_lines = []
     for k in OPTS:
         v = settings.get(k)
+        if v is False and k in FLAGOPT and placement.get(k) == "cfg-false":
+            # an explicit false in the config file equals leaving the flag out
+            cfg_lines.append(FLAGOPT[k][1] + ["=false", ": false", "=no"][cfg_style % 3])
         if v in (None, False):
             continue
         where = placement.get(k, "cli")
@@ -336,6 +339,8 @@ def _case(draw):
         s["anon"] = True
     placement = {}
     for k in OPTS:
+        if s.get(k) is False and k in FLAGOPT and kind in ("valid", "none") and draw(st.integers(0, 3)) == 0:
+            placement[k] = "cfg-false"
         if s.get(k) in (None, False):
             continue
         w = draw(st.sampled_from(["cli", "cli", "cfg", "cfg", "both", "conflict"]))
